@@ -21,6 +21,11 @@ def gen_cases(tier, rng):
     yield from fanout.gen_histories(tier, rng, header_changes=True)
 
 
+def split_impl(c, out):
+    """popen= (relay-push sessions still open at the end) is observed on the implementation only"""
+    return "|".join(p for p in out.split("|") if not p.startswith(("hook=", "popen="))) or "-"
+
+
 def nontrivial(c, out):
     return c.line if ";J" in c.line.split(" ")[2].split("I", 1)[-1] else None
 
@@ -78,6 +83,8 @@ def _oracle(c, out):
         segs = obs.get(cid)
         if segs is None:
             return ("missing", "consumer %s missing" % cid)
+        if segs == [["!"]]:
+            continue
         if k == "t":
             r = check_ts(cfg, segs[0][1:] if segs[0][:1] == ["H"] else None, tsb, pats, joins[cid], leaves.get(cid, len(evs)), cid, spans)
             if r:
